@@ -109,6 +109,9 @@ def build_cases(tier):
         if "blob" in o.text or "wkind:blb" in o.tags or "FCamel" in o.text:
             cases.append((o, dict(CONF_TYPE), "none"))
             cases.append((o, dict(CONF_PARSE), "none"))
+    # pruning options: what the result models import must survive include_all_enums / include_all_inputs = false
+    for o in sub + k2:
+        cases.append((o, {"include_all_enums": False, "include_all_inputs": False}, "none"))
     for fx, schema_text, queries, opn, options, scal in fixture_cases(tier):
         o = corpus.Op(opn, f"{fx}:{opn}", queries, {"family:fixture", f"fixture:{fx}", f"fixture_op:{fx}/{opn}"}, False, set(), "fixture")
         o_extra[id(o)] = dict(schema=schema_text, options=options, scal=scal)
